@@ -42,7 +42,20 @@ def grammar(rng, n3):
               # negated connectives other than `or` in the body (only `not (p or q)` may be rewritten to a conjunction and split)
               ('un', 'not', ('bin', 'implies', USE, AB)), ('un', 'not', ('bin', 'implies', AB, USE)), ('un', 'not', ('bin', 'implies', USE, USELT)),
               ('un', 'not', ('bin', 'and', USE, AB)), ('un', 'not', ('bin', 'iff', USE, AB))]
+    # an implication / disjunction whose consequent does not depend on the bound variable, alias in the antecedent, the consequent or the domain
+    bodies += [('bin', 'implies', USEA, B), ('bin', 'implies', USEA, AB), ('bin', 'implies', USE, AX), ('bin', 'implies', USE, B),
+               ('bin', 'or', ('un', 'not', USE), AB), ('bin', 'implies', AB, USE), ('bin', 'iff', USE, AB)]
     quants = [('quant', q, 'i', d, body) for q in ('all', 'some') for d in (XS, AXS) for body in bodies if not (body == ('bin', 'and', B, AB))]
+    # literal domains, empty ones included (`[3 to 1]`; `[x to 0]` is empty for x = 1): the hoisting guard `len(d) = 0 or p` matters there
+    RNG_E = ('range', int_lit(3), int_lit(1), False, False)
+    RNG_X = ('range', ('field', ('this',), 'x'), int_lit(0), False, False)
+    RNG_A = ('range', int_lit(1), ('field', ('var', 'A'), 'x'), False, False)
+    RNG_O = ('range', int_lit(1), int_lit(1), True, True)
+    SET2 = ('set', [int_lit(1), int_lit(-1)])
+    lit_bodies = [USE, USEA, ('bin', 'and', USE, AB), ('bin', 'and', AB, USE), ('bin', 'or', USE, AB), ('bin', 'implies', USE, AB),
+                  ('bin', 'and', USEA, B), ('un', 'not', ('bin', 'or', USE, AB)), ('bin', 'and', USE, USELT)]
+    lit_quants = [('quant', q, 'i', d, body) for q in ('all', 'some') for d in (RNG_E, RNG_X, RNG_A, RNG_O, SET2) for body in lit_bodies]
+    quants += lit_quants
     L1 = [('un', 'not', a) for a in atoms] + [('bin', op, a, b) for op in ('and', 'or', 'implies', 'iff') for a in atoms for b in atoms] + quants
     L2 = [('un', 'not', a) for a in L1] + [('bin', 'and', a, b) for a in L1 for b in atoms] + [('bin', 'and', a, b) for a in atoms for b in L1]
     L2 += [('bin', op, a, b) for op in ('or', 'implies') for a in quants[:10] for b in atoms]
